@@ -22,6 +22,7 @@ import (
 	abci "github.com/cometbft/cometbft/abci/types"
 	"github.com/cometbft/cometbft/libs/log"
 	tmos "github.com/cometbft/cometbft/libs/os"
+	tmproto "github.com/cometbft/cometbft/proto/tendermint/types"
 
 	"github.com/cosmos/cosmos-sdk/baseapp"
 	"github.com/cosmos/cosmos-sdk/client"
@@ -896,6 +897,15 @@ func NewHaqq(
 		if err := app.LoadLatestVersion(); err != nil {
 			tmos.Exit(err.Error())
 		}
+	}
+
+	if loadLatest {
+		// Load the persisted capabilities into the in-memory store now rather than in the first
+		// BeginBlock after the start: that lazy initialisation reads the capability store on the
+		// block's shared gas meter, so the first block after a restart consumed more gas than on a
+		// node that never stopped - visible in the gas used of transactions rejected before the
+		// ante handler sets up their own gas meter, and from there in the block gas figure.
+		app.CapabilityKeeper.InitMemStore(app.BaseApp.NewUncachedContext(true, tmproto.Header{}))
 	}
 
 	// The EVM keeper holds the EIP-155 chain id in memory and otherwise only learns it in
